@@ -163,9 +163,10 @@ def copies (s : CState) (c1 v1 c2 v2 : Sym) : CState × Except ErrKind Unit :=
   match (obtain lg s true c1 v1).2 with
   | .error e => ((obtain lg s true c1 v1).1, .error e)
   | .ok _ =>
-    match (obtain lg (obtain lg s true c1 v1).1 true c2 v2).2 with
-    | .error e => ((obtain lg (obtain lg s true c1 v1).1 true c2 v2).1, .error e)
-    | .ok _ => ((obtain lg (obtain lg s true c1 v1).1 true c2 v2).1, .ok ())
+    ((obtain lg (obtain lg s true c1 v1).1 true c2 v2).1,
+      match (obtain lg (obtain lg s true c1 v1).1 true c2 v2).2 with
+      | .error e => .error e
+      | .ok _ => .ok ())
 
 /-- `Sum` on two simple quantities (`_DoOperationWithSameQuantity`): equal quantities are combined
 directly; otherwise `_MatchQuantities` gives the second operand the first one's unit when both
